@@ -613,9 +613,22 @@ def _run_shard(binary, sub, lines, env, timeout, mem_limit=None, cwd=None):
             if not dead and not parsed:
                 outs.append({"harness_error": "no output"})
                 start += 1
+            elif tail == "TIMEOUT":
+                # the time limit is per shard: the line it ran out on is a hang only if it also fails to
+                # answer alone (a slow machine or a large shard is not a property violation)
+                try:
+                    p1 = subprocess.run([binary, sub], input=lines[start] + "\n", stdout=subprocess.PIPE,
+                                        stderr=subprocess.PIPE, text=True, env=env, timeout=min(timeout, 300),
+                                        cwd=cwd, preexec_fn=_limit_mem(mem_limit) if mem_limit else None)
+                    one = [ln for ln in p1.stdout.split("\n") if ln.strip()]
+                    outs.append(json.loads(one[0]) if one else {"abort": "abort", "stderr": p1.stderr[-300:]})
+                except subprocess.TimeoutExpired:
+                    outs.append({"abort": "timeout", "stderr": "TIMEOUT (alone, %ds)" % min(timeout, 300)})
+                except ValueError:
+                    outs.append({"harness_error": "unparsable answer"})
+                start += 1
             else:
-                sig = "timeout" if tail == "TIMEOUT" else "abort"
-                outs.append({"abort": sig, "stderr": tail})
+                outs.append({"abort": "abort", "stderr": tail})
                 start += 1
     return outs[:len(lines)]
 
